@@ -99,7 +99,9 @@ def cseq(case):
             base = EPS ** (1. / 1.2)
             xa = np.asarray(x, dtype=float)
             nm = np.maximum(np.log(1.718281828459045 + np.abs(xa)), 1) if nom is None else np.full(xa.shape, nom)
-            want = [base * nm * q ** (i + off) for i in range(num - 1, -1, -1)]
+            bn = (base * nm + 1.0) - 1.0     # use_exact_steps (default): (h + 1) - 1
+            q = (q + 1.0) - 1.0
+            want = [bn * q ** (i + off) for i in range(num - 1, -1, -1)]
             ok = len(got) == len(want) and all(np.allclose(g, w, rtol=1e-9, atol=0) for g, w in zip(got, want))
             ok = ok and np.allclose(gen.step_ratio, q, rtol=1e-12, atol=0)
             if not ok:
